@@ -10,6 +10,14 @@ Both are compared bit-exactly with the binary64 instance of Model/Var2h.v
 inside Coq, and checked by an exact rational oracle (fractions.Fraction) that
 knows nothing of the model.
 
+Time-zone clause: besides zones with a constant offset, aware indices in zones
+whose UTC offset changes (daylight saving, permanent changes) are placed on a
+change of offset (gen_wrapper_dst).  The series is given by its wall clock
+(the reading used throughout: periods are the labelled wall-clock periods, and
+the result must be the one of the naive index holding the same wall clock -
+values, first label and number of periods).  A series over which the offset
+varies has no model term (the model takes one offset): oracle only.
+
 The kernel has two memory-unsafe corners that belong to property C05 (the
 positioning loop runs past the end when no stamp is later than the origin).
 Generators keep the last stamp strictly after the origin, and the wrapper is
@@ -644,6 +652,15 @@ FIXED_CORPUS = [
          wall=[0, 3600, 7200, 7800], vals=[3.0, 3.0, 3.0, 3.0]),
     dict(level="wrapper", P=1800, rain=True, maxgap=None, unit="ns", tz="Australia/Darwin", tag="ok",
          wall=[600, 2400, 4000, 5400, 7200, 9100], vals=[1.0, 2.0, 0.5, 4.0, 1.0, 2.0]),
+    # Australia/Sydney, 2021-10-03 00:10 .. 06:05 wall clock across the start of daylight saving (02:00 -> 03:00)
+    # and 2021-04-04 00:10 .. 06:05 across its end (03:00 -> 02:00): before 923115a the output was sized from
+    # the elapsed time of the aware stamps (4 resp. 6 periods instead of the 5 of the naive index)
+    dict(level="wrapper", P=3600, rain=False, maxgap=None, unit="ns", tz="Australia/Sydney", tag="ok",
+         amb=[True] * 5, change=[1633226400, 3600, "span"],
+         wall=[1633219800, 1633225800, 1633231200, 1633235400, 1633241100], vals=[1.0, 2.0, 4.0, 3.0, 5.0]),
+    dict(level="wrapper", P=3600, rain=False, maxgap=None, unit="us", tz="Australia/Sydney", tag="ok",
+         amb=[True] * 5, change=[1617505200, -3600, "span"],
+         wall=[1617495000, 1617501000, 1617506400, 1617510600, 1617516300], vals=[1.0, 2.0, 4.0, 3.0, 5.0]),
 ]
 
 
@@ -672,11 +689,20 @@ def run(ctx):
                 "length (0, 1, 2, shorter, longer) x error paths (bad period, bad rainfall flag, origin before "
                 "the data, one stamp, a stamp going backwards). wrapper level: the same series (>= 2 stamps "
                 "spanning >= 2 periods) x unit s/ms/us/ns x naive / UTC / six fixed-offset zones x default or "
-                "explicit maxgapsec x error paths. non-trivial = distinct signature (level, period, mode, "
-                "error class, size class, duplicates, NaN, negative, unit, zone, result class)")
+                "explicit maxgapsec x error paths. wrapper level, changing offset: the same series localised in one "
+                "of 18 zones with daylight saving / permanent changes of offset (shifts of 30 min, 1 h, 2 h, 24 h, "
+                "both hemispheres, zoneinfo and dateutil tzinfo, years 1950..2189), placed on a change of offset: "
+                "spanning it (first stamp 1 s..3 d before), starting inside / just after it, ending just after it; "
+                "stamps on the edges of the skipped / repeated wall-clock interval; skipped readings dropped; "
+                "repeated readings flagged first / second occurrence / switching once (instants non-decreasing) "
+                "x unit x period x rainfall x maxgapsec. non-trivial = distinct signature (level, period, mode, "
+                "error class, size class, duplicates, NaN, negative, unit, zone, result class, shift and "
+                "placement of the change of offset)")
     ctx.trusted = cm.STD_TRUST + [
         "pandas builds the DatetimeIndex of each unit/zone from the wall-clock seconds; the raw integers and "
         "the UTC offset given to the model are read back from pandas (asi8, utcoffset)",
+        "changes of UTC offset of a zone are located with zoneinfo on the system's zone data (generator only); "
+        "pandas localises the wall clock (tz_localize with an explicit first/second-occurrence array)",
         "the wrapper is run with c_hydrodiy_data replaced by a guard object that forwards to the real kernel "
         "and refuses calls outside the C05 memory-safety contract",
     ]
@@ -685,7 +711,10 @@ def run(ctx):
         "- tested with a Fraction oracle on the implementation",
         "pandas/numpy glue of the wrapper (tz_localize(None), astype('datetime64[s]'), Timestamp fields, "
         "Timedelta.total_seconds, date_range) - sampled by the wrapper-level correspondence",
-        "zones whose UTC offset changes inside the series (DST) are not generated",
+        "series over which the UTC offset changes (daylight saving) are outside the model (one offset): they are "
+        "checked by the Fraction oracle on the wall clock and against the result for the naive index only",
+        "aware indices whose wall clock goes backwards (instants increasing through the end of daylight saving) "
+        "are not generated: the series is read by its wall clock, which must be non-decreasing",
     ]
     proved = cm.prove_with_kernels(ctx, ["c_var2h"])
     cm.use_impl()
